@@ -259,19 +259,46 @@ func runJoinBubble(js joinScenario) result {
 	if err != nil {
 		return okInts(-errCodeJoin(err))
 	}
+	producerDone := make(chan [2][]int, 1)
 	go func() {
 		next := 1
-		for _, p := range js.prod {
+		// capExtra == -2: the producer's slices are windows buf[a:b] of ONE backing array (so each has the rest of the array as
+		// hidden capacity), laid out in an order that differs from the order in which they are sent (items 2k+1 and 2k+2
+		// swapped); the array is compared with what the producer wrote into it at the end
+		var block, blockRef []int
+		offsets := make([]int, len(js.prod))
+		if js.capExtra == -2 {
+			layout := make([]int, len(js.prod))
+			for i := range layout {
+				layout[i] = i
+			}
+			for i := 1; i+1 < len(layout); i += 3 {
+				layout[i], layout[i+1] = layout[i+1], layout[i]
+			}
+			total := 0
+			for _, idx := range layout {
+				offsets[idx] = total
+				total += int(js.prod[idx][1])
+			}
+			block = make([]int, total)
+			blockRef = make([]int, total)
+		}
+		for idx, p := range js.prod {
 			time.Sleep(time.Duration(p[0]))
-			// capExtra < 0: no spare capacity and an empty input slice is a nil slice (an ordinary empty slice)
+			// capExtra == -1: no spare capacity and an empty input slice is a nil slice (an ordinary empty slice)
 			var vals []int
 			if js.capExtra >= 0 {
 				vals = make([]int, p[1], int(p[1])+js.capExtra)
+			} else if js.capExtra == -2 {
+				vals = block[offsets[idx] : offsets[idx]+int(p[1])]
 			} else if p[1] > 0 {
 				vals = make([]int, p[1])
 			}
 			for i := range vals {
 				vals[i] = next
+				if block != nil {
+					blockRef[offsets[idx]+i] = next
+				}
 				next++
 			}
 			putItem(vals)
@@ -281,6 +308,7 @@ func runJoinBubble(js joinScenario) result {
 		}
 		time.Sleep(js.closeAfter)
 		closeIn()
+		producerDone <- [2][]int{block, blockRef}
 	}()
 	go func() {
 		consume(log, t0, out, js, release, quit)
@@ -289,6 +317,17 @@ func runJoinBubble(js joinScenario) result {
 	<-done
 	close(quit)
 	synctest.Wait()
+	select {
+	case bb := <-producerDone:
+		// what the producer wrote into its own array is still there, except where it was overwritten by a later item of its own
+		for i := range bb[0] {
+			if bb[0][i] != bb[1][i] {
+				log.flag("producer-memory-modified")
+				break
+			}
+		}
+	default:
+	}
 	res := encodeJoin(log, -1, true)
 	res.vals = append(res.vals, "goroutines", strconv.Itoa(libGoroutines()))
 	return res
